@@ -226,6 +226,16 @@ func RootOnBranch(root *RNode, x *RNode) *RNode {
 	return nr
 }
 
+// rootAtRandom roots the tree on the branch above a random node and puts the two root children in a random order
+// (so that a tip can be the first or the second child of the root).
+func rootAtRandom(root *RNode, all []*RNode, r Rnd) *RNode {
+	m := RootOnBranch(root, all[1+r.Intn(len(all)-1)])
+	if len(m.Children) == 2 && r.Intn(2) == 0 {
+		m.Children[0], m.Children[1] = m.Children[1], m.Children[0]
+	}
+	return m
+}
+
 func sortedKeys[V any](m map[string]V) []string {
 	ks := make([]string, 0, len(m))
 	for k := range m {
